@@ -3,6 +3,8 @@
 package kubeeventsmanager
 
 import (
+	"fmt"
+
 	corev1 "k8s.io/api/core/v1"
 	"k8s.io/apimachinery/pkg/apis/meta/v1/unstructured"
 )
@@ -16,6 +18,11 @@ type VerifC02Informer struct {
 	Varying   bool
 	Index     FactoryIndex
 	CacheIDs  []string
+	// Registered: the informer's handler is registered with the factory currently stored under Index.
+	Registered bool
+	// StoreID identifies that factory's shared informer (a new one is created whenever the last
+	// handler of an index was removed and an informer for the index is started again).
+	StoreID string
 }
 
 // VerifC02Describe lists the static and varying informers of a monitor with their cache keys.
@@ -32,7 +39,15 @@ func VerifC02Describe(mon Monitor) []VerifC02Informer {
 			ids = append(ids, k)
 		}
 		ei.cacheLock.RUnlock()
-		res = append(res, VerifC02Informer{Namespace: ei.Namespace, Name: ei.Name, Varying: varying, Index: ei.FactoryIndex, CacheIDs: ids})
+		DefaultFactoryStore.mu.Lock()
+		f, has := DefaultFactoryStore.data[ei.FactoryIndex]
+		_, reg := f.handlerRegistrations[ei.id]
+		storeID := ""
+		if has {
+			storeID = fmt.Sprintf("%p", f.shared.ForResource(ei.FactoryIndex.GVR).Informer())
+		}
+		DefaultFactoryStore.mu.Unlock()
+		res = append(res, VerifC02Informer{Namespace: ei.Namespace, Name: ei.Name, Varying: varying, Index: ei.FactoryIndex, CacheIDs: ids, Registered: reg, StoreID: storeID})
 	}
 	for _, ei := range m.ResourceInformers {
 		one(ei, false)
